@@ -80,6 +80,14 @@ UsesAlias(e) ==
   /\ \E j \in 1..Len(e.sv.fields) : \A i \in 1..Len(e.s.fields) : e.s.fields[i].name # e.sv.fields[j][1]
 Dev_AliasGenericRoute(e) == "C16-alias-generic-route" \in KnownIds /\ UsesAlias(e) /\ ~e.r2.ok /\ ~e.r2.panic
 
+(* the block size setting only matters where the schema has an array or a map: only then all four are run *)
+RECURSIVE SchemaHasBlocks(_)
+SchemaHasBlocks(s) ==
+  CASE s.k \in {"array", "map"} -> TRUE
+    [] s.k = "union" -> \E i \in 1..Len(s.branches) : SchemaHasBlocks(s.branches[i])
+    [] s.k = "record" -> \E i \in 1..Len(s.fields) : SchemaHasBlocks(s.fields[i].type)
+    [] OTHER -> FALSE
+
 (***************************************************************************)
 (* One run = one target block size.                                        *)
 (***************************************************************************)
@@ -170,7 +178,7 @@ Judge(e) ==
       rs == [i \in 1..Len(e.runs) |-> JudgeRun(e, e.runs[i], env, av, nsv, hinted)]
       r2 == JudgeRoute2(e, env, av, nsv)
   IN [fail  |-> UNION {rs[i].fail : i \in 1..Len(rs)} \cup r2.fail
-                \cup If(Len(e.runs) = 4, "TOOL:runs-missing"),
+                \cup If(Len(e.runs) = (IF SchemaHasBlocks(e.s) THEN 4 ELSE 1), "TOOL:runs-missing"),
       known |-> UNION {rs[i].known : i \in 1..Len(rs)} \cup r2.known,
       drift |-> UNION {rs[i].drift : i \in 1..Len(rs)} \cup r2.drift
                 \cup If(e.repr_same, "corpus-type-serializes-differently-from-the-model")]
